@@ -225,9 +225,23 @@ def algo_nontrivial(rec):
 
 
 # ---- C02
+def gen_uniform_debt_cases(rng, N, nmin=4, nmax=6, mag=3):
+    """debt anywhere: every chip count uniform in [-mag, mag] (several indebted vertices at once,
+    sweeps in which a borrow re-indebts an already processed vertex)"""
+    out = []
+    for _ in range(N):
+        g, E = gen.gen_graph(rng, nmin, nmax, names=(rng.random() < 0.3))
+        d = [rng.randint(-mag, mag) for _ in range(g["n"])]
+        s = dict(g)
+        s.update(op="ewd", deg=d, opt=False, viz=False, _band=gen.band_of(sum(d), g["_genus"]), _debt="uniform")
+        out.append(s)
+    return out
+
+
 def c02_generate(rng, tier):
-    a = gen_ewd_cases(rng, count(tier, 200, 3000), nmax=count(tier, 6, 8), viz_share=0, modes=(False,))
+    a = gen_ewd_cases(rng, count(tier, 300, 3000), nmax=count(tier, 6, 8), viz_share=0, modes=(False,))
     a += gen_chain_debt_cases(rng, count(tier, 60, 1000), modes=(False,), viz_share=0)
+    a += gen_uniform_debt_cases(rng, count(tier, 900, 8000), nmax=count(tier, 6, 7))
     tag_cmp(a, ["D", "verdict"], rel=["verdict"])
     b = genhist.gen_api(rng, count(tier, 200, 3000), nmax=count(tier, 6, 7))
     tag_cmp(b, ["q_reduction", "is_q_reduced", "is_winnable"], rel=["is_winnable"])
@@ -697,3 +711,107 @@ PROPS["C18"] = {"generate": c18_generate, "judge": c18_judge, "group_judge": c18
                 "nontrivial": lambda rec: graph_nontrivial(rec["scn"]),
                 "rule": "EWD on the same input with recording on and off (results compared with each other and with the model; the recorded history compared snapshot by snapshot with the model's trace, its independence tested by mutating the returned divisor afterwards); Dhar runs with a recorder; element lists of graphs, divisors, partial orientations and EWD steps for hyphen-free names, compared element by element with the model's",
                 "theorems": ["recording_does_not_perturb", "trace_snapshots", "one_node_per_vertex", "edge_elements_spec", "arrows_iff_oriented"]}
+
+
+# ---- C15
+def c15_generate(rng, tier):
+    a = genhist.gen_rt(rng, count(tier, 250, 2500), nmax=count(tier, 5, 6), faults=("all" if tier == "thorough" else None))
+    return tag_cmp(a, None)
+
+
+NONTRIVIAL_RULE["C15"] = "non-trivial: n>=2 vertices; distinct by canonical scenario"
+PROPS["C15"] = {"generate": c15_generate,
+                "strata": lambda rec: [f"kind={rec['scn']['kind']}", f"names={rec['scn'].get('_style')}", f"txt={rec['scn'].get('txt')}", f"n={rec['scn']['n']}"],
+                "nontrivial": lambda rec: rec["scn"]["n"] >= 2,
+                "level": "proof",
+                "rule": "graphs, divisors (magnitudes up to 10^30, also results of CFLaplacian.apply), partial/full orientations, sparse/dense scripts with plain, Unicode, long, blank-containing, digit-like and hostile names; dict (through json text), JSON file and TXT file round trips compared observationally with the original; fault enumeration per written file: byte-prefix truncations (quick: 64 evenly spaced + last 16; thorough: all) and single-byte corruptions (quick 48 random; thorough every position x 3 values): must not raise, JSON proper prefixes must read None, anything returned must be a well-formed object; missing files read None",
+                "theorems": ["graph_dict_roundtrip", "edge_list_canonical", "divisor_dict_roundtrip", "script_dict_roundtrip", "decimal_roundtrip"]}
+
+
+# ---- C19
+def c19_generate(rng, tier):
+    import regen
+    a = genhist.gen_bounds(rng, count(tier, 60, 400), nmax=count(tier, 5, 6), exhaustive_upto=count(tier, 4, 5))
+    b = genhist.gen_closed(rng, tier)
+    extra = []
+    # true gonality of the graphs behind the multipartite closed form, by the verified search (model side only)
+    for s in b:
+        if "_graph" in s:
+            g = s["_graph"]
+            extra.append({"op": "bounds", "n": g["n"], "edges": g["edges"], "_for_parts": s["arg"], "_kind": "multipartite"})
+    # K_n as generated by the library, and the solids with exact table entries
+    data = regen.LAST_DUMP or {}
+    for nm in ("tetrahedron", "octahedron", "cube"):
+        if nm in data.get("solids", {}):
+            d = data["solids"][nm]
+            extra.append({"op": "gonality", "n": d["n"], "edges": d["edges"], "strat": False, "max": None,
+                          "_solid": nm, "_exact": data["table"].get(nm, {}).get("exact"), "timeout": 120})
+    return tag_cmp(a + b + extra, None)
+
+
+def c19_judge(rec):
+    s, l = rec["scn"], rec["lean"]
+    fails = []
+    for hs, p in rec["py"].items():
+        if not isinstance(p, dict) or not isinstance(l, dict):
+            continue
+        if s["op"] == "bounds" and isinstance(l.get("_gon"), int) and l["_gon"] >= 1 and "_for_parts" not in s:
+            g = l["_gon"]
+            n = s["n"]
+            checks = [("lower_bound", lambda x: x <= g), ("upper_bound", lambda x: x >= g),
+                      ("minimum_degree_bound", lambda x: x <= g), ("bramble_order_bound", lambda x: x - 1 <= g),
+                      ("trivial_upper_bound", lambda x: x >= g and x == n - 1), ("independence_upper_bound", lambda x: x >= g)]
+            for k, ok in checks:
+                v = p.get(k)
+                if not isinstance(v, int) or not ok(v):
+                    fails.append(f"{k} = {v} does not bracket the true gonality {g} (n = {n})")
+            if p.get("independence_number") != l.get("independence_number"):
+                fails.append(f"independence number {p.get('independence_number')} but a largest independent set has {l.get('independence_number')} vertices")
+        if s["op"] == "gonality" and s.get("_solid"):
+            if p.get("gonality") != s.get("_exact"):
+                fails.append(f"table says the {s['_solid']} has gonality {s.get('_exact')}, the library computes {p.get('gonality')}")
+            if l.get("gonality") != s.get("_exact"):
+                fails.append(f"table says the {s['_solid']} has gonality {s.get('_exact')}, the verified search finds {l.get('gonality')}")
+    return fails
+
+
+def c19_group_judge(recs):
+    """closed form of K_{parts} vs the true gonality of that graph (verified search)"""
+    gon = {}
+    for r in recs:
+        if r["scn"].get("_for_parts") is not None and isinstance(r["lean"], dict):
+            gon[tuple(r["scn"]["_for_parts"])] = r["lean"].get("_gon")
+    bad = []
+    for r in recs:
+        s = r["scn"]
+        if s["op"] == "closed" and s["name"] == "complete_multipartite_gonality" and tuple(s["arg"]) in gon:
+            p = next(iter(r["py"].values()))
+            g = gon[tuple(s["arg"])]
+            if isinstance(p, dict) and isinstance(g, int) and p.get("value") != g:
+                bad.append((r, [f"complete_multipartite_gonality({s['arg']}) = {p.get('value')} but the graph has gonality {g}"]))
+        if s["op"] == "closed" and s["name"] == "complete_graph_gonality" and 2 <= s["arg"] <= 6 and (s["arg"],) in gon:
+            p = next(iter(r["py"].values()))
+            g = gon[(s["arg"],)]
+            if isinstance(p, dict) and isinstance(g, int) and p.get("value") != g:
+                bad.append((r, [f"complete_graph_gonality({s['arg']}) = {p.get('value')} but K_{s['arg']} has gonality {g}"]))
+    return bad
+
+
+def k2_matcher(rec, detail, fails):
+    """K2: the multipartite closed form subtracts the smallest part instead of the largest"""
+    s = rec["scn"]
+    if s.get("op") != "closed" or s.get("name") != "complete_multipartite_gonality" or detail is not None:
+        return False
+    parts = s["arg"]
+    p = next(iter(rec["py"].values()))
+    return len(parts) >= 2 and isinstance(p, dict) and p.get("value") == sum(parts) - min(parts) and all("complete_multipartite_gonality" in f for f in fails)
+
+
+MATCHERS["K2"] = k2_matcher
+NONTRIVIAL_RULE["C19"] = "non-trivial: bounds reports on n>=3 vertices; closed forms with argument >= 2; every solid"
+PROPS["C19"] = {"generate": c19_generate, "judge": c19_judge, "group_judge": c19_group_judge,
+                "strata": lambda rec: [f"op={rec['scn']['op']}", f"n={rec['scn'].get('n')}", f"kind={rec['scn'].get('_kind', rec['scn'].get('name'))}"],
+                "nontrivial": lambda rec: (rec["scn"]["op"] == "bounds" and rec["scn"]["n"] >= 3) or rec["scn"]["op"] == "gonality" or (rec["scn"]["op"] == "closed" and (rec["scn"]["arg"] if isinstance(rec["scn"]["arg"], int) else sum(rec["scn"]["arg"])) >= 2),
+                "lean_targets": ["ChipFiring.Properties.C19"], "lean_targets_thorough": ["ChipFiring.Properties.C19Heavy"],
+                "rule": "bounds report and independence number on every connected simple graph with n<=4 (quick) / 5 (thorough) labelled vertices plus generated families up to n=5/6, each compared with the model's report and bracketed against the true gonality found by the verified search; closed forms for n in -1..8 and every part vector with sum <= 6/7, the multipartite and K_n forms compared with the true gonality of the generated graph; the exact table entries of the regenerated tetrahedron, octahedron and cube compared with the library's own gonality() and with the verified search",
+                "theorems": ["complete_graph_closed_form", "multipartite_closed_form", "parking_count_closed_form", "solid_counts", "certified_is_gonality", "tetrahedron_exact", "octahedron_exact", "complete_graph_gonality_small", "multipartite_formula_wrong", "independence_is_max"]}
